@@ -370,7 +370,7 @@ pub fn gen_go(rng: &mut Rng, timed_ok: bool, white_to_move: bool) -> String {
 /// where a slice holds few nodes)
 pub fn gen_go_max(rng: &mut Rng, timed_ok: bool, white_to_move: bool, max_plan_ms: i64) -> String {
     let mut parts: Vec<String> = vec!["go".into()];
-    let kind = rng.below(if timed_ok { 10 } else { 4 });
+    let kind = rng.below(if timed_ok { 11 } else { 5 });
     let (my, other) = if white_to_move { ("w", "b") } else { ("b", "w") };
     match kind {
         0 => {}
@@ -389,6 +389,23 @@ pub fn gen_go_max(rng: &mut Rng, timed_ok: bool, white_to_move: bool, max_plan_m
             parts.push("100".into());
             parts.push("movestogo".into());
             parts.push(rng.pick(&[1u32, 2, 40]).to_string());
+        }
+        4 => {
+            // the largest clocks for which the time policy (C09: plan <= 80% of (clock - 100) /
+            // moves-to-go, rounded to whole ms) still forces a zero slice:
+            // 5 m > 8 (clock - 100). One step further and the request is searched.
+            let mtg = *rng.pick(&[0u32, 0, 2, 40]);
+            let m = if mtg == 0 { 30 } else { mtg } as i64;
+            let top = 100 + (5 * m - 1) / 8;
+            let clock = if rng.chance(1, 2) { top } else { rng.range(101, top) };
+            parts.push(format!("{}time", my));
+            parts.push(clock.to_string());
+            parts.push(format!("{}time", other));
+            parts.push(rng.range(0, 100000).to_string());
+            if mtg != 0 {
+                parts.push("movestogo".into());
+                parts.push(mtg.to_string());
+            }
         }
         3 => {
             // other side has plenty, mover has nothing
